@@ -74,6 +74,10 @@ CLAIMS = {
          "Theorem C12_element_from_reference_is_deep_copy: for every well-formed list of trivially copy/move-constructible types, every aligned source position, junk content and construction form the new element's own block holds exactly the source tuple (elem_at at offset 0), its reference is the field table of that tuple, the source bytes are unchanged and the allocation is the rounded-up byte size; swap exchanges contents and (with POCS) allocators; a moved-from element owns nothing. "
          "PARTIAL: copy/move assignment paths (field-wise, reallocating, stealing, element-wise between unequal allocators), allocator-extended constructors, reference<->element assignment and non-trivial value types are modelled as written (Elem.v) and decided by the tie: element histories on ~55 lists x 8 (quick) / 32 (thorough) allocator kinds incl. assignment into moved-from elements, different varying sizes, default and explicit allocators; per step the element's fields, allocator, block identity and units vs model, a Python content oracle, block-sharing check against all vectors, get<I>/structured bindings/reference-from-element path agreement, element comparisons by content.",
          "5 C12"),
+ "C15": ("proof (dispatch soundness over a type universe x source forms: stored = T(item); memcpy only where representation-preserving; move counts) + refutation of the pinned rule + correspondence on a catalogue of 640 instantiated cases with an independent conversion oracle",
+         "Theorems C15_*: for every stored/source type of the modelled universe (bool, integers and enumerations of every width and signedness, float/double, pointers with base-class offset, trivially copyable classes with converting constructor / conversion operator, a class with user-provided copy/move), every source form (contiguous container, node-based container, generated range, C array, pointer, contiguous iterator, other iterator, move_iterator) x lvalue/rvalue and every length: the stored objects are item by item repr(T(source item)), exactly n of them; MEMCPY_COMPATIBLE implies the conversion keeps the object representation; lvalue ranges are not moved from, rvalue ranges / move_iterators once per consumed item. C15_pinned_rule_refuted: the pinned tree's rule fails (bool <- uint8_t{2}); repaired by a fix commit. "
+         "Tie: 640 instantiations (45 type pairs x 11 FixedSize forms + 4 VaryingSize forms) of real emplace_back, values incl. extremes and lengths 0..5, iterator sources longer than the parameter; stored bytes, move counters of an instrumented class, items consumed from a generated range, source unchanged; vs the extracted model and vs a Python static_cast oracle.",
+         "5 C15"),
 }
 
 checks = []
